@@ -5,6 +5,10 @@
 // compares.  The families of EmplaceGrow.v (emplace_n_th, emplace_grow_th, emplace_back_grow_th) print composite states.
 // The families `*_mt` (coq/ThrowMove.v) run the same helpers on vf::El<2>, whose move constructor and move assignment are
 // throwing-capable events too: every throw index, every catch branch of shift_right / emplace_n / insert_n is reached.
+// The families `*_tr` (coq/SlotsTR.v) run the TRIVIALLY RELOCATABLE overloads on vf::El<1> (declares trivially_relocatable, not
+// trivially copyable): the helpers move such elements with std::memmove.  For this driver a memmove issued by the amc headers is a
+// LEDGER EVENT like a constructor or a destructor call (vf::relocMemmove below): the bytes are moved by the real memmove, then the
+// source slots that are not part of the destination range are overwritten with 0xEE (they hold no object any more: `R`).
 // The line format, the real function behind every case and the model it is compared with: see SLOTDRV.md.
 //
 //   CASE <name> <param>=<int>... k=<k|-> | pre=<slots> | post=<slots> | threw=<0|1> | newsize=<n|-> | errs=<n> live=<n> [msg=<text>]
@@ -22,7 +26,77 @@
 
 #include "common.hpp"
 
+// every standard header the amc headers include, BEFORE `memmove` is renamed for them
+#include <cassert>
+#include <cstdlib>
+#include <cstring>
+#include <functional>
+#include <initializer_list>
+#include <iterator>
+#include <limits>
+#include <new>
+#include <optional>
+#include <set>
+#include <stdexcept>
+#include <type_traits>
+#include <variant>
+
+// ---- bitwise relocation as a ledger event ---------------------------------------------------------------------------------
+// The trivially relocatable overloads move objects with `std::memmove (dest, first, n * sizeof (T))` (memory.hpp:
+// relocate_at_impl, uninitialized_relocate_n_impl, uninitialized_relocate_impl).  Bytes alone cannot tell where the object is
+// afterwards (source and destination hold the same id).  The amc headers are therefore compiled with `memmove` renamed to
+// `vf_memmove` (a macro, active only while they are read): while `vf::RL ().on` (the `*_tr` families) each call
+//   * checks that every source slot holds a live object            (else ledger error `relocate-from:outside-lifetime`),
+//   * checks that every destination slot OUTSIDE the source range holds none (else `relocate-over-live-object`: the bytes of a
+//     live object would be overwritten without its destructor, or an object duplicated),
+//   * moves the bytes with the real memmove,
+//   * fills every source slot outside the destination range with 0xEE: it has no ledger identity any more (`R`), and any later
+//     use of it as an object (copy, assignment, destructor) is a ledger error `...:outside-lifetime`.
+// A relocated object keeps `self` = the address it was constructed at: it is printed with a trailing `!`.
+namespace vf {
+struct RelocLedger {
+  bool on = false;
+  long calls = 0;    // memmove calls seen while on
+  long objects = 0;  // objects relocated by them
+};
+inline RelocLedger &RL() {
+  static RelocLedger r;
+  return r;
+}
+inline void *relocMemmove(void *dst, const void *src, size_t bytes) {
+  typedef El<1> E;
+  if (!RL().on || bytes == 0 || bytes % sizeof(E) != 0) return ::memmove(dst, src, bytes);
+  const size_t n = bytes / sizeof(E);
+  const uintptr_t d0 = reinterpret_cast<uintptr_t>(dst), s0 = reinterpret_cast<uintptr_t>(src);
+  ++RL().calls;
+  RL().objects += static_cast<long>(n);
+  for (size_t i = 0; i < n; ++i) {
+    const uintptr_t si = s0 + i * sizeof(E), di = d0 + i * sizeof(E);
+    if (!G().isLive(reinterpret_cast<const E *>(si)->id)) G().err("relocate-from:outside-lifetime");
+    const bool dstIsSource = di >= s0 && di < s0 + bytes;
+    if (!dstIsSource && G().isLive(reinterpret_cast<const E *>(di)->id)) G().err("relocate-over-live-object");
+  }
+  void *r = ::memmove(dst, src, bytes);
+  for (size_t i = 0; i < n; ++i) {
+    const uintptr_t si = s0 + i * sizeof(E);
+    const bool srcIsDest = si >= d0 && si < d0 + bytes;
+    if (!srcIsDest) std::memset(reinterpret_cast<void *>(si), 0xEE, sizeof(E));
+  }
+  return r;
+}
+// turns the relocation ledger on for one case of a `*_tr` family (set up included)
+struct RelocScope {
+  explicit RelocScope(bool on) { RL().on = on; }
+  ~RelocScope() { RL().on = false; }
+};
+}  // namespace vf
+namespace std {
+inline void *vf_memmove(void *d, const void *s, size_t n) { return vf::relocMemmove(d, s, n); }
+}  // namespace std
+
+#define memmove vf_memmove
 #include <amc/vector.hpp>
+#undef memmove
 
 namespace vf {
 template <class T, bool W>
@@ -45,8 +119,15 @@ static_assert(!amc::vec::is_shift_nothrow<TM>::value && !std::is_nothrow_move_co
                   !std::is_nothrow_move_assignable<TM>::value,
               "El<2> moves may throw");
 
+// the element of the `*_tr` families: declares trivially_relocatable, is not trivially copyable (copies are throwing-capable events),
+// noexcept move constructor (no event)
+typedef vf::El<1> TR;
+static_assert(amc::is_trivially_relocatable<TR>::value && !std::is_trivially_copyable<TR>::value, "El<1> must be TR and not TC");
+static_assert(amc::vec::is_shift_nothrow<TR>::value && std::is_nothrow_move_constructible<TR>::value, "El<1>: relocation and moves do not throw");
+
 static const int kFirstValue = 10;  // the live prefix holds 10, 11, ...
 static const int kNewValue = 99;    // the value inserted / assigned when it does not come from the buffer itself
+static const int kRangeValue = 100;  // insert_range_tr: the source range holds 100, 101, ...
 
 // raw buffer of exactly `cap` slots (ASan sees any access beyond it), filled with 0xEE: such a slot has no ledger identity
 template <class E>
@@ -121,6 +202,7 @@ static void runCaseOf(const char *name, const std::string &params, int cap, bool
   for (long k = -1;; ++k) {
     bool threw = false;
     {
+      vf::RelocScope relocLedger(std::is_same<E, TR>::value);
       BufOf<E> b(cap);
       setup(b.data);
       E v(kNewValue);  // the only live object outside the buffer
@@ -160,8 +242,9 @@ static std::string P(const char *a, int x, const char *b, int y) { return P(a, x
 // insert(const_iterator, size_type count, const_reference v), v not an element of the vector, no growth
 // (the body after "fix: insert of several elements before end() leaves the vector unchanged when an element copy throws":
 // the fill is wrapped in try / catch, the handler calls vec::unshift_right)
-static long insertCount(T *buf, int size, int pos, int count, const T &v) {
-  T *p = buf + pos;
+template <class E>
+static long insertCount(E *buf, int size, int pos, int count, const E &v) {
+  E *p = buf + pos;
   if (count > 0) {
     SizeType nElemsToShift = static_cast<SizeType>(size - pos);
     if (nElemsToShift == 0) {
@@ -179,6 +262,95 @@ static long insertCount(T *buf, int size, int pos, int count, const T &v) {
   }
   return size;
 }
+// a forward iterator (and nothing more) over an array of elements: insert(pos, first, last) then takes insert_range(..., forward_iterator_tag)
+template <class E>
+struct FwdIt {
+  typedef std::forward_iterator_tag iterator_category;
+  typedef E value_type;
+  typedef std::ptrdiff_t difference_type;
+  typedef const E *pointer;
+  typedef const E &reference;
+  const E *p;
+  reference operator*() const { return *p; }
+  pointer operator->() const { return p; }
+  FwdIt &operator++() {
+    ++p;
+    return *this;
+  }
+  FwdIt operator++(int) {
+    FwdIt r = *this;
+    ++p;
+    return r;
+  }
+  bool operator==(const FwdIt &o) const { return p == o.p; }
+  bool operator!=(const FwdIt &o) const { return p != o.p; }
+};
+// insert_range(const_iterator, ForwardIt first, ForwardIt last, std::forward_iterator_tag), the range is not part of the vector, no growth
+// (same handler as insert(pos, count, v): copy_after_shift wrapped in try / catch, vec::unshift_right)
+template <class E, class ForwardIt>
+static long insertRange(E *buf, int size, int pos, ForwardIt first, ForwardIt last) {
+  typename std::iterator_traits<ForwardIt>::difference_type count = std::distance(first, last);
+  E *p = buf + pos;
+  if (count > 0) {
+    SizeType nElemsToShift = static_cast<SizeType>(size - pos);
+    if (nElemsToShift == 0) {
+      amc::uninitialized_copy_n(first, count, p);
+    } else {
+      amc::vec::shift_right(p, nElemsToShift, static_cast<SizeType>(count));
+      try {
+        amc::vec::copy_after_shift(first, nElemsToShift, static_cast<SizeType>(count), p);
+      } catch (...) {
+        amc::vec::unshift_right(p, nElemsToShift, static_cast<SizeType>(count));
+        throw;
+      }
+    }
+    return size + count;
+  }
+  return size;
+}
+// insert_range_tr: as runCaseOf, with `count` more live objects outside the buffer (the source range 100, 101, ...)
+static void runInsertRangeTR(int size, int cap, int pos, int count) {
+  const std::string params = P("size", size, "cap", cap) + " " + P("pos", pos, "count", count);
+  for (long k = -1;; ++k) {
+    bool threw = false;
+    {
+      vf::RelocScope relocLedger(true);
+      BufOf<TR> b(cap);
+      setupPrefix(b.data, size);
+      TR v(kNewValue);  // not used: the same live object outside the buffer as in every other family
+      BufOf<TR> range(count);
+      for (int i = 0; i < count; ++i) ::new (static_cast<void *>(range.data + i)) TR(kRangeValue + i);
+      G().errors.clear();
+      const long errs0 = G().nErrors;
+      const std::string pre = slotStates(b);
+      std::printf("CASE insert_range_tr %s k=%s |", params.c_str(), k < 0 ? "-" : std::to_string(k).c_str());
+      std::fflush(stdout);
+      G().countdown = k;
+      try {
+        FwdIt<TR> first = {range.data}, last = {range.data + count};
+        insertRange(b.data, size, pos, first, last);
+      } catch (const std::runtime_error &) {
+        threw = true;
+      }
+      G().countdown = -1;
+      const std::string post = slotStates(b);
+      const long errs = G().nErrors - errs0;
+      // the range must be untouched: `count` live objects with their values
+      std::string msg;
+      for (int i = 0; i < count; ++i)
+        if (!G().isLive(range.data[i].id) || range.data[i].v != kRangeValue + i) msg = "the source range was modified";
+      std::printf(" pre=%s | post=%s | threw=%d | newsize=- | errs=%ld live=%ld", pre.c_str(), post.c_str(), threw ? 1 : 0, errs,
+                  G().live - 1 - count);
+      if (errs != 0 && !G().errors.empty()) msg = G().errors[0];
+      if (!msg.empty()) std::printf(" msg=%s", msg.c_str());
+      std::printf("\n");
+      killAll(range);
+      killAll(b);
+    }
+    if (k >= 0 && !threw) break;
+  }
+}
+
 // insert(const_iterator, const_reference v) with v = element `src` of the same vector, size < capacity
 static long insertOwn(T *buf, int size, int pos, int src) {
   const T &v = buf[src];
@@ -210,6 +382,7 @@ static void runEmplaceNOf(const char *name, int size, int cap, int pos, int src,
   for (long k = -1;; ++k) {
     bool threw = false;
     {
+      vf::RelocScope relocLedger(std::is_same<E, TR>::value);
       BufOf<E> b(cap);
       setupPrefix(b.data, size);
       E ext(kNewValue);  // alive during every case, the argument when src is not an own element
@@ -432,6 +605,69 @@ int main(int argc, char **argv) {
         }
       }
 
+      // ---- the trivially relocatable overloads on El<1> (bitwise relocation), every throw index, coq/SlotsTR.v ----------------
+      auto prefixR = [=](TR *buf) { setupPrefix(buf, size); };
+      for (int pos = 0; pos <= size; ++pos) {
+        const int n = size - pos;
+        for (int count = 0; count <= extra; ++count) {
+          const std::string pc = sc + " " + P("pos", pos, "count", count);
+          runCaseOf<TR>("insert_cnt_tr", pc, cap, true, -1, prefixR, [=](TR *buf, const TR &v) { return insertCount(buf, size, pos, count, v), -1L; });
+          runInsertRangeTR(size, cap, pos, count);
+          if (n > 0 && count > 0) {
+            runCaseOf<TR>("shift_right_cnt_tr", pc, cap, true, -1, prefixR, [=](TR *buf, const TR &) {
+              amc::vec::shift_right(buf + pos, static_cast<SizeType>(n), static_cast<SizeType>(count));
+              return -1L;
+            });
+            // unshift_right alone, on the state the real shift_right (pos, n, count) leaves
+            runCaseOf<TR>("unshift_right_tr", pc, cap, true, -1,
+                          [=](TR *buf) {
+                            setupPrefix(buf, size);
+                            amc::vec::shift_right(buf + pos, static_cast<SizeType>(n), static_cast<SizeType>(count));
+                          },
+                          [=](TR *buf, const TR &) {
+                            amc::vec::unshift_right(buf + pos, static_cast<SizeType>(n), static_cast<SizeType>(count));
+                            return -1L;
+                          });
+          }
+        }
+        if (n > 0 && extra >= 1) {
+          runCaseOf<TR>("shift_right1_tr", sc + " " + P("pos", pos), cap, true, -1, prefixR, [=](TR *buf, const TR &) {
+            amc::vec::shift_right(buf + pos, static_cast<SizeType>(n));
+            return -1L;
+          });
+          // shift_left alone, on the state the real shift_right (pos, n) leaves
+          runCaseOf<TR>("shift_left_tr", sc + " " + P("pos", pos), cap, true, -1,
+                        [=](TR *buf) {
+                          setupPrefix(buf, size);
+                          amc::vec::shift_right(buf + pos, static_cast<SizeType>(n));
+                        },
+                        [=](TR *buf, const TR &) {
+                          amc::vec::shift_left(buf + pos + 1, static_cast<SizeType>(n));
+                          return -1L;
+                        });
+        }
+        if (extra >= 1) {
+          runCaseOf<TR>("insert_n_tr", sc + " " + P("pos", pos), cap, true, -1, prefixR, [=](TR *buf, const TR &v) {
+            amc::vec::insert_n(buf + pos, static_cast<SizeType>(n), v);
+            return -1L;
+          });
+          for (int src = 0; src <= size; ++src) {
+            for (int rv = 0; rv <= 1; ++rv) runEmplaceNOf<TR>("emplace_n_tr", size, cap, pos, src < size ? src : cap + 2, rv);
+          }
+        }
+      }
+      for (int first = 0; first <= size; ++first) {
+        for (int last = first; last <= size; ++last) {
+          runCaseOf<TR>("erase_tr", sc + " " + P("first", first, "last", last), cap, true, -1, prefixR, [=](TR *buf, const TR &) {
+            SizeType n = static_cast<SizeType>(last - first);
+            if (n != 0) {
+              amc::vec::erase_n(buf + first, n, static_cast<SizeType>(size - last));
+            }
+            return -1L;
+          });
+        }
+      }
+
       // emplace / emplace_back of a full vector (growth path), once per size
       if (extra == 0) {
         for (int src = 0; src <= size; ++src) {
@@ -492,6 +728,6 @@ int main(int argc, char **argv) {
       }
     }
   }
-  std::printf("END live=%ld errors=%ld\n", G().live, G().nErrors);
+  std::printf("END live=%ld errors=%ld relocations=%ld objects=%ld\n", G().live, G().nErrors, vf::RL().calls, vf::RL().objects);
   return 0;
 }
